@@ -331,14 +331,30 @@ class State:
         return s
 
 
+def try_operand(trycall):
+    """the value `x` of `x?` (Try::branch carries its operand type as a pseudo argument)"""
+    a = [x for x in trycall[3] if not (isinstance(x, tuple) and x and x[0] == 'targ')]
+    return a[0] if a else None
+
+
 def try_ok_variant(trycall):
-    """'Some' for Option::branch, 'Ok' for Result::branch (decided by the generic argument recorded on the call)"""
-    a = trycall[3][0] if trycall[3] else None
-    # the operand type is not in the value tree; Option is by far the common case in this crate, Result is told apart
-    # by its producer
-    if a is not None and a[0] == 'call' and ('Result' in a[2] or a[2].endswith('::try_lock')):
-        return 'Ok'
+    """'Some' for Option::branch, 'Ok' for Result::branch"""
+    for x in trycall[3]:
+        if isinstance(x, tuple) and x and x[0] == 'targ':
+            return 'Ok' if x[1].startswith('std::result::Result<') else 'Some'
     return 'Some'
+
+
+def peel_bool_source(v, depth=0):
+    """for Option/Result values manufactured from a boolean - `b.then_some(x)`, `b.then(|| x)`, `.ok_or(e)` on those -
+    the boolean that decides Some/Ok"""
+    if depth > 4 or not isinstance(v, tuple) or not v:
+        return None
+    if v[0] == 'call' and v[2] in ('core::bool::then_some', 'core::bool::then', 'std::bool::then_some', 'std::bool::then') and v[3]:
+        return v[3][0]
+    if v[0] == 'call' and v[2] in ('std::option::Option::ok_or', 'std::option::Option::ok_or_else') and v[3]:
+        return peel_bool_source(v[3][0], depth + 1)
+    return None
 
 
 def lkey(pl):
@@ -465,7 +481,7 @@ class Evaluator:
                         pass
                 if bv[0] == 'downcast' and bv[2] == 'Continue' and pl[2] == '0' and bv[1][0] == 'call' and bv[1][2] == 'std::ops::Try::branch' and bv[1][3]:
                     # `x?` on an Option/Result: the Continue payload is the Some/Ok payload of x
-                    return ('field', ('downcast', bv[1][3][0], try_ok_variant(bv[1])), '0')
+                    return ('field', ('downcast', try_operand(bv[1]), try_ok_variant(bv[1])), '0')
                 return ('field', bv, pl[2])
             if pl in st.mem:
                 return st.mem[pl]
@@ -694,6 +710,8 @@ class Evaluator:
                 st.body = fr['body']
                 st.visits = fr['visits']
                 st.depth = d - 1
+                if fr.get('wrap') == 'Some':
+                    rv = ('agg', 'std::option::Option', 'Some', (rv,), ())
                 self.assign(st, fr['dest'], rv, t.get('at'), fr['bb'])
                 b = fr['target']
                 continue
@@ -747,6 +765,66 @@ class Evaluator:
                             clo_args = (args[0],) + tuple(args[1][3])
                 if callee is not None and clo_args is not None:
                     args = clo_args
+                if name == 'std::ops::Try::branch' and t.get('target') is not None:
+                    x = try_operand(('call', 0, name, args))
+                    if x is not None and x[0] == 'agg' and x[2] in ('Some', 'Ok', 'None', 'Err'):
+                        if x[2] in ('Some', 'Ok'):
+                            cf = ('agg', 'std::ops::ControlFlow', 'Continue', (x[3][0],) if x[3] else (('agg', 'tuple', '', (), ()),), ())
+                        else:
+                            cf = ('agg', 'std::ops::ControlFlow', 'Break', (x,), ())
+                        self.assign(st, t['dest'], cf, t.get('at'), b)
+                        b = t['target']
+                        continue
+                if name == 'std::ops::FromResidual::from_residual' and fn and fn['args'] and fn['args'][0].startswith('std::result::Result<') and t.get('target') is not None:
+                    res = args[-1]
+                    out = None
+                    if res[0] == 'agg' and res[2] == 'Err':
+                        out = ('agg', 'std::result::Result', 'Err', res[3], ())
+                    elif res[0] == 'field' and res[1][0] == 'downcast' and res[1][2] == 'Break' and res[1][1][0] == 'call' and res[1][1][2] == 'std::ops::Try::branch':
+                        x = try_operand(res[1][1])
+                        e = None
+                        if x is not None and x[0] == 'call' and x[2] in ('std::option::Option::ok_or',) and len(x[3]) > 1:
+                            e = x[3][1]
+                        elif x is not None:
+                            e = ('field', ('downcast', x, 'Err'), '0')
+                        if e is not None:
+                            out = ('agg', 'std::result::Result', 'Err', (e,), ())
+                    if out is not None:
+                        self.assign(st, t['dest'], out, t.get('at'), b)
+                        b = t['target']
+                        continue
+                if name in ('core::bool::then', 'std::bool::then') and len(args) == 2 and t.get('target') is not None and st.depth < MAX_INLINE_DEPTH:
+                    # `cond.then(|| expr)`: an if/else in disguise - fork on the condition, splice the closure on the true side
+                    cv = args[1]
+                    if cv[0] in ('ref', 'rawptr') and len(cv) > 2 and cv[2] is not None:
+                        cv = cv[2]
+                    cb = self.body.facts.bodies.get(cv[2]) if cv[0] == 'agg' and cv[1] == 'closure' else None
+                    if cb is not None:
+                        cond = args[0]
+                        r_ = classify_bool_expr(cond)
+                        sF = st.clone()
+                        if r_ is not None:
+                            sF.events.append(Event('br', idx=len(sF.events), label=r_[0], outcome='F' if r_[1] else 'T', val=cond, at=t.get('at'), bb=b, taken=('0', ['0'])))
+                        self.assign(sF, t['dest'], ('agg', 'std::option::Option', 'None', (), ()), t.get('at'), b)
+                        work.append((t['target'], sF))
+                        if r_ is not None:
+                            st.events.append(Event('br', idx=len(st.events), label=r_[0], outcome='T' if r_[1] else 'F', val=cond, at=t.get('at'), bb=b, taken=(None, ['0'])))
+                        st.stack.append({'body': st.body, 'visits': st.visits, 'dest': t['dest'], 'target': t['target'], 'bb': b, 'wrap': 'Some'})
+                        st.depth += 1
+                        st.body = cb
+                        st.visits = {}
+                        st.env[(1, st.depth)] = args[1]
+                        b = 0
+                        continue
+                if name in ('std::option::Option::is_some', 'std::option::Option::is_none') and args and t.get('target') is not None:
+                    a0 = args[0]
+                    if a0[0] in ('ref', 'rawptr') and len(a0) > 2 and a0[2] is not None:
+                        a0 = a0[2]
+                    if a0[0] == 'agg' and a0[1].endswith('option::Option') and a0[2] in ('Some', 'None'):
+                        truth = (a0[2] == 'Some') == name.endswith('is_some')
+                        self.assign(st, t['dest'], ('const', 'bool', '1' if truth else '0'), t.get('at'), b)
+                        b = t['target']
+                        continue
                 if name == 'std::ops::FromResidual::from_residual' and fn and fn['args'] and fn['args'][0].startswith('std::option::Option<'):
                     # `None?` : the residual of an Option is always None
                     self.assign(st, t['dest'], ('agg', 'std::option::Option', 'None', (), ()), t.get('at'), b)
@@ -1244,9 +1322,17 @@ def classify(d, val, listed):
                 name = rest[0]
             else:
                 name = 'other(' + '|'.join(rest) + ')'
+        src = inner
         if inner[0] == 'call' and inner[2] == 'std::ops::Try::branch':
             okv = try_ok_variant(inner)
             name = {'Continue': okv, 'Break': ('None' if okv == 'Some' else 'Err')}.get(name, name)
+            src = try_operand(inner)
+        bsrc = peel_bool_source(src) if src is not None else None
+        if bsrc is not None:
+            r = classify_bool_expr(bsrc)
+            if r is not None and name in ('Some', 'Ok', 'None', 'Err'):
+                truth = name in ('Some', 'Ok')
+                return (r[0], 'T' if (truth == r[1]) else 'F')
         return (discr_label(inner), name)
     fcount = ci_field_load(d)
     if fcount is None and d[0] == 'bin' and d[1] in ('Add', 'Sub') and d[3][0] == 'const':
@@ -1279,7 +1365,7 @@ def classify(d, val, listed):
 
 def discr_label(v):
     if v[0] == 'call' and v[2] == 'std::ops::Try::branch' and v[3]:
-        return discr_label(v[3][0])
+        return discr_label(try_operand(v))
     if v[0] == 'call':
         short = {
             'internal::ChannelInternal::next_recv': 'next_recv',
@@ -1345,7 +1431,7 @@ def inject_sizeof_targs(b):
             p = canon(t['fn']['path'])
             if p in ('std::mem::size_of', 'std::mem::needs_drop', 'std::mem::align_of',
                      'std::mem::size_of_val', 'std::mem::zeroed', 'std::mem::transmute',
-                     'std::intrinsics::transmute') and 'targ_done' not in t:
+                     'std::intrinsics::transmute', 'std::ops::Try::branch') and 'targ_done' not in t:
                 t['targ_done'] = True
                 t['args'] = [{'k': 'targ', 'v': a} for a in t['fn']['args']] + t['args']
 
